@@ -8,6 +8,7 @@
 # @author Davide Brunato <brunato@sissa.it>
 #
 import datetime
+from copy import copy
 import importlib
 from collections.abc import Iterator, Sequence, Callable
 from functools import cached_property
@@ -363,7 +364,9 @@ class XPathContext:
         """
         if varnames is None:
             varnames = []
-        iterators = [x(self) for x in selectors]
+        # Each selector runs on its own copy of the context (the variables are shared): their
+        # generators are suspended while the other ones advance and move the focus.
+        iterators = [x(copy(self)) for x in selectors]
         dimension = len(iterators)
         prod = [None] * dimension
         max_index = dimension - 1
@@ -385,7 +388,7 @@ class XPathContext:
             else:
                 if not k:
                     return
-                iterators[k] = selectors[k](self)
+                iterators[k] = selectors[k](copy(self))
                 k -= 1
 
     ##
